@@ -166,7 +166,7 @@ class Generator:
             j = i + 1
             while j < len(lines):
                 sj = lines[j].strip()
-                if re.match(r"^//@(\||loop\s|rewrite|rewriteall|before|afterstmt|after|sig\s|from\s|fromafter\s|to\s|until\s|tail\s)", sj):
+                if re.match(r"^//@(\||loop\s|rewrite|rewriteall|before|afterstmt|after|sig\s|from\s|fromafter\s|to\s|until\s|tail\s|ghostdefault\s)", sj):
                     cont.append(self._subst_lit(sj))
                     j += 1
                 else:
@@ -492,7 +492,18 @@ class Generator:
                     body = self._apply_insert(c, body, rules, it)
             if loops:
                 body = self._splice_loops(body, loops, it)
+            for c in edits:
+                # `//@ghostdefault NAME: TYPE = VALUE`: contract text may name a local of the real body; on a tree
+                # whose body no longer declares it, a ghost constant stands in, so that the obligations (not the
+                # front end) decide.  Nothing is added when the local exists.
+                m = re.match(r"^//@ghostdefault\s+(\w+)\s*:\s*(.+?)\s*=\s*(.+)$", c)
+                if m and not re.search(r"\blet\s+(mut\s+)?%s\b" % re.escape(m.group(1)), body):
+                    b = body.index("{")
+                    body = body[:b + 1] + " let ghost %s: %s = %s; " % (m.group(1), m.group(2), m.group(3)) + body[b + 1:]
+                    rules.append("ghostdefault: local `%s` absent from the body, ghost constant %s used" % (m.group(1), m.group(3)))
             if getattr(self, "_broadcast", None):
+                # a function-level `broadcast use` is not in effect inside loop bodies: repeat it there
+                body = self._broadcast_in_loops(body)
                 b = body.index("{")
                 body = body[:b + 1] + " broadcast use {%s}; " % ", ".join(self._broadcast) + body[b + 1:]
             for a in [x for x in opts.get("attrs", "").split(";") if x]:
@@ -702,8 +713,10 @@ class Generator:
                     is_loop = True
                     break
                 k -= 1
-            if not is_loop:
+            if not is_loop and not self._block_is_tail_of_loop(toks, pairs, enc):
                 raise AnchorLost("`continue` inside a nested block is not supported (R6)")
+            if not is_loop:
+                rules.append("R6 (nested): the enclosing if/else chain is the last statement of the loop body, so skipping the rest of its block is `continue`")
             # the `if` must be a plain `if COND {continue;}` with no else
             close_if = hit + 3
             if close_if + 1 < len(toks) and toks[close_if + 1].text == "else":
@@ -712,6 +725,86 @@ class Generator:
             rest = body[toks[close_if].end:toks[enc_close].start]
             body = body[:toks[hit].start] + "{ } else {" + rest + "}" + body[toks[enc_close].start:]
             rules.append("R6 `if C { continue; } REST` -> `if C { } else { REST }` in a loop body")
+        return body
+
+    @staticmethod
+    def _block_header_kw(toks, pairs, enc):
+        """keyword that introduces the block opening at token index enc: for/while/loop/if/else or None"""
+        k = enc - 1
+        if k >= 0 and toks[k].kind == "id" and toks[k].text == "else":
+            return "else", k
+        while k >= 0:
+            t = toks[k]
+            if t.text in (")", "]"):
+                k = pairs[k] - 1
+                continue
+            if t.text in (";", "}", "{"):
+                return None, k
+            if t.kind == "id" and t.text in ("for", "while", "loop", "if"):
+                return t.text, k
+            k -= 1
+        return None, -1
+
+    def _block_is_tail_of_loop(self, toks, pairs, enc, depth=0):
+        """True iff control reaching the end of the block at `enc` reaches the end of a loop body without
+        executing anything else: the block belongs to an if/else chain that is the last statement of its
+        parent block, and the parent is a loop body or has the same property."""
+        if depth > 6:
+            return False
+        kw, kpos = self._block_header_kw(toks, pairs, enc)
+        if kw in ("for", "while", "loop"):
+            return True
+        if kw not in ("if", "else"):
+            return False
+        # end of the whole if/else chain
+        end = pairs[enc]
+        while end + 1 < len(toks) and toks[end + 1].text == "else":
+            k = end + 2
+            while k < len(toks) and toks[k].text != "{":
+                if toks[k].text in ("(", "["):
+                    k = pairs[k]
+                k += 1
+            if k >= len(toks):
+                return False
+            end = pairs[k]
+        nxt = end + 1
+        if nxt < len(toks) and toks[nxt].text == ";":
+            nxt += 1
+        if nxt >= len(toks) or toks[nxt].text != "}":
+            return False
+        # start of the chain: walk back over `else if` links to the first `if`
+        parent_open = pairs[nxt]
+        if toks[parent_open].text != "{":
+            return False
+        pk, _ = self._block_header_kw(toks, pairs, parent_open)
+        if pk in ("for", "while", "loop"):
+            return True
+        return self._block_is_tail_of_loop(toks, pairs, parent_open, depth + 1)
+
+    def _broadcast_in_loops(self, body):
+        toks = code_tokens(lex(body))
+        pairs = match_brackets(toks)
+        pos = []
+        for idx, t in enumerate(toks):
+            if t.kind == "id" and t.text in ("for", "while", "loop"):
+                if idx + 1 < len(toks) and toks[idx + 1].text == "<":
+                    continue
+                if idx > 0 and toks[idx - 1].text in (".", "::"):
+                    continue
+                k = idx + 1
+                while k < len(toks):
+                    tt = toks[k]
+                    if tt.text in ("(", "["):
+                        k = pairs[k] + 1
+                        continue
+                    if tt.text == "{":
+                        break
+                    k += 1
+                if k < len(toks):
+                    pos.append(toks[k].end)
+        ins = " broadcast use {%s}; " % ", ".join(self._broadcast)
+        for p in sorted(pos, reverse=True):
+            body = body[:p] + ins + body[p:]
         return body
 
     def _splice_loops(self, body, loops, it):
